@@ -64,12 +64,13 @@ prop('C06', COMMON +
      'ASSIGN-ALL-PATHS: the checker functions typing a binary operator, a unary operator and an if-else perform an '
      'assignability check on every path. SCOPE-IFLET-ELSE: the scope analysis visits the else-branch of an if-let at the scope depth of the whole '
      'expression (pattern bindings are not visible there). REENTRANT-RESTORE: a typing-context field overridden around a '
-     're-entrant call (synthesis mode) is restored on every path. REL-FIELDS: every checker function relating two types '
+     're-entrant call (synthesis mode) is restored on every path. EXHAUSTIVE-GATE: every typed Match / declaration statement is built only after the exhaustiveness procedure ran and every '
+     'counterexample is reported. REL-FIELDS: every checker function relating two types '
      '(same-type, assignable, meet, subtype) reads every identity field of the payload structs it compares from both sides. TYPE-WALKER: every structural recursion '
      'over the checker\'s Type (validation of instantiations, substitution, placeholder search) reads every child position '
      '(type arguments, parameter types, return type).',
      [gate.run_gate, gate.run_errset, gate.run_assign_all_paths, lex_bounds.run_int_range, scope.run_iflet_else,
-      lambda prog, tier, repo: scope.run_reentrant_restore(prog, tier, repo, crates=('samlang_checker',)), relation.run, type_walker.make(('samlang_checker',), 6), TI.make(['T-chk', 'T-ssa'])])
+      lambda prog, tier, repo: scope.run_reentrant_restore(prog, tier, repo, crates=('samlang_checker',)), relation.run, gate.run_exhaustive_gate, type_walker.make(('samlang_checker',), 6), TI.make(['T-chk', 'T-ssa'])])
 
 prop('C08', COMMON +
      'TRAVERSAL/SIBLING: the pretty-printer reads every expression, pattern, annotation, identifier and literal slot of '
